@@ -36,6 +36,7 @@ ANCHORS = ["maze_dataset.generation.generators:LatticeMazeGenerators.gen_wilson"
            "maze_dataset.generation.generators:get_neighbors_in_bounds"]
 AMBIENT = dict(generators=False, solver=False, solved=False)
 BLOCK = 500
+DEAD: set = set()  # grids on which a draw hit the per-call watchdog in this shard (no further draws there: the run is inconclusive anyway)
 TAIL = 1e-9
 
 
@@ -61,7 +62,7 @@ def run(ctx):
         nblocks = -(-total // BLOCK)
         for blk in range(nblocks):
             b += 1
-            if not ctx.mine(b):
+            if not ctx.mine(b) or (R, C) in DEAD:
                 continue
             np.random.seed(ctx.case_seed("blk", R, C, blk) % (2**32))
             if blk % 4 == 3:
@@ -73,10 +74,11 @@ def run(ctx):
             for _ in range(m):
                 cl = None
                 try:
-                    with call_watchdog(ctx, 60, f"C19/gen_wilson {R}x{C}"):
+                    with call_watchdog(ctx, 20, f"C19/gen_wilson {R}x{C}"):
                         cl = gen(shape).connection_list
                     if cl is None:
-                        break  # watchdog fired: inconclusive, reported by the runner
+                        DEAD.add((R, C))  # watchdog fired: inconclusive, reported by the runner; no further draws on this grid in this shard
+                        break
                 except Exception as e:  # noqa: BLE001
                     ctx.violation(f"C19/gen_wilson-raises/{type(e).__name__}", repr(e)[:300], dict(shape=(R, C), block=blk))
                     break
@@ -109,7 +111,7 @@ def _marginals(ctx, b):
         sl = tuple(np.array(x) for x in zip(*slots))
         for blk in range(-(-total // BLOCK)):
             b += 1
-            if not ctx.mine(b):
+            if not ctx.mine(b) or (R, C) in DEAD:
                 continue
             np.random.seed(ctx.case_seed("mblk", R, C, blk) % (2**32))
             if blk % 4 == 1:
@@ -120,9 +122,10 @@ def _marginals(ctx, b):
             for _ in range(m):
                 cl = None
                 try:
-                    with call_watchdog(ctx, 120, f"C19/gen_wilson {R}x{C}"):
+                    with call_watchdog(ctx, 30, f"C19/gen_wilson {R}x{C}"):
                         cl = gen(np.array([R, C])).connection_list
                     if cl is None:
+                        DEAD.add((R, C))
                         break
                 except Exception as e:  # noqa: BLE001
                     ctx.violation(f"C19/gen_wilson-raises/{type(e).__name__}", repr(e)[:300], dict(shape=(R, C), block=blk))
@@ -187,13 +190,20 @@ def _trace(ctx, n_per_shard):
         for t in range(n_per_shard):
             rng = ctx.sub_rng("trace", ctx.shard, t)
             R, C = [(3, 3), (4, 4), (3, 5), (5, 3), (2, 6), (6, 6)][t % 6]
+            if (R, C) in DEAD:
+                continue
             np.random.seed(int(rng.integers(1 << 32)))
             events.clear()
             state["on"] = True
+            maze = None
             try:
-                maze = G.LatticeMazeGenerators.gen_wilson(np.array([R, C]))
+                with call_watchdog(ctx, 30, f"C19/gen_wilson {R}x{C}"):
+                    maze = G.LatticeMazeGenerators.gen_wilson(np.array([R, C]))
             finally:
                 state["on"] = False
+            if maze is None:
+                DEAD.add((R, C))
+                continue
             ctx.tally("c19:trace:draws")
             _replay(ctx, list(events), maze.connection_list, R, C, dict(shape=(R, C), t=t, shard=ctx.shard))
     finally:
